@@ -538,6 +538,17 @@ struct Run
 		}
 	}
 
+	// one queue per case: sections over queueList are group 1, over freeList group 2, over the listener map group 3
+	static int queueCsGroup(const char * tag) {
+		const char * t = nullptr;
+		if(strncmp(tag, "cs.queue.", 9) == 0) t = tag + 9;
+		else if(strncmp(tag, "cs.hqueue.", 10) == 0) t = tag + 10;
+		else if(strncmp(tag, "cs.disp.", 8) == 0) return 3;
+		if(t == nullptr) return 0;
+		if(strncmp(t, "recycle", 7) == 0 || strncmp(t, "enqueue.free", 12) == 0) return 2;
+		return 1;
+	}
+
 	void run() {
 		const int cfg = prog.params.size() > 0 ? ((prog.params[0] % 3) + 3) % 3 : 0;
 		const int strategy = prog.params.size() > 1 ? ((prog.params[1] % 3) + 3) % 3 : 0;
@@ -546,6 +557,7 @@ struct Run
 		installSchedHook();
 		dtorHook() = &Run::dtorObserver;
 		sched.reset(new Sched(choice, strategy, spurious));
+		sched->csGroupOf = &queueCsGroup;
 		switch(cfg) {
 		case 0: q.reset(new HomoQ<SchedThreading>()); break;
 		case 1: q.reset(new HomoQ<SchedSpinThreading>()); break;
@@ -581,6 +593,7 @@ struct Run
 			if(! r) break;
 		}
 		if(! q->emptyQ()) fail("cq.final.empty", "C06,C11", "queue not empty after the producers finished and the queue was drained");
+		if(! failed && ! sched->csOverlap.empty()) fail("cq.cs.overlap", "C06", "two threads inside critical sections over the same list at once: " + sched->csOverlap);
 		checkHistory();
 		v.subEvaluations = 1;
 		classes();
